@@ -8,6 +8,7 @@ package main
 
 import (
 	"fmt"
+	"go/build/constraint"
 	"os"
 	"path/filepath"
 	"regexp"
@@ -57,11 +58,11 @@ type Contracts struct {
 
 var clauseKW = map[string]bool{"assumes": true, "requires": true, "ensures": true, "xensures": true, "panics": true,
 	"modifies": true, "ghost": true, "loop": true, "serves": true, "inline": true, "dataplane": true,
-	"dependency": true, "trusted": true, "assert": true, "callback": true, "noinline": true, "pure": true, "typeparams": true}
+	"dependency": true, "trusted": true, "assert": true, "callback": true, "noinline": true, "pure": true, "typeparams": true, "xpure": true}
 
 var reLabel = regexp.MustCompile(`^([A-Za-z_][A-Za-z0-9_.\-]*):\s+`)
 
-func parseContracts(dir string) (*Contracts, error) {
+func parseContracts(dir string, tags string) (*Contracts, error) {
 	files, _ := filepath.Glob(filepath.Join(dir, "verif_contracts_*.go"))
 	sort.Strings(files)
 	c := &Contracts{Funcs: map[string]*FuncSpec{}, Files: files}
@@ -69,6 +70,9 @@ func parseContracts(dir string) (*Contracts, error) {
 		data, err := os.ReadFile(f)
 		if err != nil {
 			return nil, err
+		}
+		if !buildTagsOK(string(data), tags) {
+			continue
 		}
 		var cur *FuncSpec
 		var curClause *Clause
@@ -131,7 +135,7 @@ func parseContracts(dir string) (*Contracts, error) {
 					}
 					curClause = nil
 					continue
-				case "inline", "dataplane", "dependency", "trusted", "noinline", "pure", "callback":
+				case "inline", "dataplane", "dependency", "trusted", "noinline", "pure", "callback", "xpure":
 					cur.Flags[first] = true
 					if rest != "" {
 						cl.Text = rest
@@ -173,6 +177,27 @@ func parseContracts(dir string) (*Contracts, error) {
 		}
 	}
 	return c, nil
+}
+
+// buildTagsOK evaluates the //go:build line of a contract file against the active tags.
+func buildTagsOK(src, tags string) bool {
+	set := map[string]bool{}
+	for _, t := range strings.Split(tags, ",") {
+		set[strings.TrimSpace(t)] = true
+	}
+	for _, line := range strings.Split(src, "\n") {
+		if constraint.IsGoBuild(line) {
+			e, err := constraint.Parse(line)
+			if err != nil {
+				return true
+			}
+			return e.Eval(func(tag string) bool { return set[tag] })
+		}
+		if strings.HasPrefix(line, "package ") {
+			break
+		}
+	}
+	return true
 }
 
 var reDecl = regexp.MustCompile(`^(pred|spec func|ghost func|lemma)\s+([A-Za-z_][A-Za-z0-9_]*)\s*\(([^)]*)\)\s*([^:]*?)\s*(?::=\s*(.*))?$`)
